@@ -9,8 +9,8 @@ TRUST = ("Trusted base: the gocv VC generator (Go subset lowering, A4), z3 5.1.0
 
 CLAIMS = {
  "C02": dict(
-   text="Deductive proof of panic-freedom and termination for the byte-level parsers under contract: every index/slice expression in bounds, every integer division by a non-zero divisor, every make size non-negative, every loop with a decreasing variant, mutual recursion with a lexicographic measure (bytes left, rank) — for every byte sequence. Covered: the whole content-stream parser (Parse, parseNext, parseOperator, parseOperand, parseNumber, parseString, parseHexString, parseName, parseArray, parseDict, skipWhitespace), format.DetectFromMagic/detectHTMLMagic, rag.findWordBoundaryNear/findSentenceEndNear/BatchExporter.Export, pages.(*PageTree).Count, reader.(*Reader).PageCount (non-negative count).",
-   note=TRUST + "PARTIAL: only the functions listed in the evidence are covered; the document-level parser (core), the container readers (zip/xml/html libraries), allocation size budgets and recursion DEPTH (stack use grows with nesting of [ and <<) are not covered.",
+   text="Deductive proof of panic-freedom, termination and bounded allocation for the parsers and walkers under contract, for every input: every index/slice expression in bounds, every integer division by a non-zero divisor, every make size non-negative and (where a callsite make budget is given) bounded independently of numbers read from the file, every for-loop with a decreasing variant (a loop or a directly recursive function WITHOUT a variant is a failing obligation), recursion with lexicographic measures. Covered: the whole content-stream parser; the document parser core.(*Parser) (nextToken, skipComments, ParseObject, parseNumber, parseArray, parseDict: measure = 3*unread input + buffered tokens, so every loop consumes input or stops); core.(*Lexer).ReadBytes (1 MiB allocation budget); xref streams (parseXRefStream/parseXRefStreamEntry: /W widths, /Index pairing, progress per entry); the /Prev chain (ParseAllXRefs, measure 2^64 - visited offsets); object streams (parseHeader/decode/GetObjectByIndex); reader.(*Reader).GetObject (re-entrancy through the parser refused, nesting <= 32) and resolveDeep (depth measure); pages.traversePageNode (depth measure); text.invokeXObject <-> processOperation (nesting counter measure); UTF-16 and CMap string decoders; ASCIIHex/ASCII85; format sniffing; rag boundary search and BatchExporter. Eight genuine crash/hang defects found by failing obligations were repaired in /repo (fix: commits, known_findings.json).",
+   note=TRUST + "PARTIAL: core.(*Lexer).NextToken and core.NewLexer are ASSUMED contracts (flags trusted: the lexer consumes input on every non-EOF token); parseStream/ParseIndirectObject, parseTraditionalXRef, the container readers (zip/xml/html libraries) and recursion DEPTH of the two object parsers (stack use grows with nesting of [ and <<) are not covered; the re-entrancy of GetObject through the uncontracted parser is cut by proved guard obligations, its global measure is argued in DESIGN.md; exponential fan-out of nested form XObjects (depth <= 10) is not bounded.",
    ref="5.2"),
  "C05": dict(
    text="Deductive proof (own weakest-precondition VC generator over the typed Go AST of /repo, obligations discharged by SMT) that the PNG predictor (any per-row filter mix, any Columns/Colors geometry, all rows) and the TIFF predictor 2 decode exactly the bytes a conforming encoder started from, for every input length and geometry; Paeth against the PNG specification; unknown filter types, unsupported bit depths and invalid geometry yield an error. Unbounded: loop invariants, no unrolling.",
@@ -25,8 +25,8 @@ CLAIMS = {
    note=TRUST + "PARTIAL: floating point treated as reals (A2); the operator dispatch in text.(*Extractor).processOperation, glyph advances and the effective font size are not under contract; induction over operator sequences is a meta-argument over the per-operator contracts.",
    ref="5.8"),
  "C10": dict(
-   text="Deductive proof that page selection is a set algebra: resolvePages returns 0..n-1 when nothing is selected; otherwise it fails iff some requested page is outside 1..n, and on success the result is strictly ascending, without duplicates, and contains exactly the requested pages (as a set) — for any order, duplicates or repeated chained selections; the page count used is proven non-negative.",
-   note=TRUST + "PARTIAL: sort.Ints is a trusted library contract (sorted, same value set, distinctness preserved); copy-on-configure, page stamping and handle release (typestate) are not yet under contract.",
+   text="Deductive proof that page selection is a set algebra (resolvePages: 0..n-1 when nothing is selected; fails iff some requested page is outside 1..n; on success strictly ascending, duplicate-free, exactly the requested set); that deriving a configured extractor copies the configuration (clone/Pages/PageRange: the clone's page list is a fresh slice, appends never write through the parent's backing array - noalias/fresh frame rules); that every terminal operation that opens a handle has a deferred Close on every exit (typestate rule `releases` on 11 terminal methods); and that Close clears the ownership flags and a second Close returns nil and changes nothing.",
+   note=TRUST + "PARTIAL: sort.Ints is a trusted library contract; the per-page join rule of Text() and page-number stamping in Document() are not under contract; the typestate rule is syntactic (ensureReader followed by a deferred Close in the same function) and does not follow handles into the format readers' own Open error paths.",
    ref="5.10"),
  "C11": dict(
    text="Deductive proof that header/footer filtering only deletes: the result is exactly the sub-sequence of kept fragments (same order, nothing invented or duplicated: position of every kept fragment = number of kept fragments before it), a fragment is dropped only if a region detected for this page exists such that it lies in the top/bottom band and (character-level page or text match); no regions or body-band position => never dropped; nil detector result or empty input => input returned unchanged.",
@@ -61,8 +61,8 @@ CLAIMS = {
    note=TRUST + "PARTIAL: concurrency is argued from disjoint footprints (no shared mutable package state), not explored; 18 map iterations that the structural rules do not accept are listed as unclaimed in the evidence (not proved order-insensitive); data races inside third-party packages and reflection are out of reach.",
    ref="5.3"),
  "C04": dict(
-   text="Deductive proof of the revision-merge kernels: MergeXRefTables maps every object number to the entry of the LAST table (newest revision, tables oldest-first) that defines it and defines nothing else, with the last table's trailer (loop invariants over a ghost set of visited map keys; recursive spec function lastDef); readBigEndianInt equals the big-endian value of min(width,8) bytes for every input.",
-   note=TRUST + "PARTIAL: xref discovery and parsing, /Prev chain order (ParseAllXRefs), object-stream lookup and the reader's object cache are not yet under contract; map iteration modelled as 'every present key exactly once in arbitrary order' assuming the loop body does not modify the ranged map.",
+   text="Deductive proof of the revision kernels: MergeXRefTables maps every object number to the entry of the LAST table (newest revision, tables oldest-first) that defines it and defines nothing else, with the last table's trailer; ParseAllXRefs puts every older section found through /Prev in FRONT of the newer ones (step contract) and terminates on cyclic chains; parseXRefStreamEntry decodes type 0/1/2 entries to free/in-use/compressed with the big-endian field values (readBigEndianInt against a recursive spec) and rejects other types; reader.(*Reader).GetObject returns the cached value on a hit without touching anything, fails for numbers that are absent from the table or whose newest entry is free, and caches a loaded object under exactly its own number; getCompressedObject looks in stream entry.Offset at index entry.Generation; both loaders return only an object whose parsed number equals the number asked for (atreturn obligations); getObjectStream refuses nested object streams and keeps the cache representation invariant.",
+   note=TRUST + "PARTIAL: traditional xref section parsing, FindXRef and the parse of the object bytes themselves (core.Parser through os.File/bufio) are not under contract, so 'the value' is the value the parser returns at the entry's location; independence from lookup order follows from the cache contracts (hit returns what a load stored under that number) together with determinism of the uncontracted parser; map iteration modelled as 'every present key exactly once in arbitrary order'.",
    ref="5.4"),
  "C07": dict(
    text="Deductive proof that DecodeUTF16BE/LE return exactly the scalar values a conforming UTF-16 encoder (RFC 2781, ghost scalar and offset sequences) started from, including surrogate pairs, for every well-formed even-length input; that the simple-font table decoder returns exactly the mapped table entries in order; that CMap.Lookup gives an explicit bfchar mapping precedence over ranges and maps a code in the first matching range to StartUnicode+(code-StartCode); and that fixed-width and width-less CMap string decoding stay in bounds and terminate.",
